@@ -6,6 +6,9 @@ import BigDec.Generated
 namespace BigDec
 open Generated
 
+/-- `BigUint::bits` -/
+def bits (n : Nat) : Nat := if n = 0 then 0 else n.log2 + 1
+
 /-- `10u64.pow(k)` with release-mode (wrapping) semantics -/
 def tenPowU64 (k : Nat) : Nat := (10 ^ k) % 2 ^ 64
 
